@@ -11,8 +11,8 @@ import UralModel.Lemmas.StrSplit
   maps matches to matches (used with ASCII lower-casing);
 * projections used to *read off* sub-patterns and classes from a generated term.
 -/
-namespace Ural.Py.Re
-open Ural.Py
+namespace Ural.Py.Re.Extra
+open Ural.Py Ural.Py.Re
 
 theorem match_eps_iff {n s t} : Match n .eps s t ↔ s = t := by
   constructor
@@ -309,4 +309,4 @@ theorem coWithin_sound {C : CharClass} {ns : List Nat} (h : C.coWithin ns = true
     rw [e] at this
     exact hc (by simpa using this)
 
-end Ural.Py.Re
+end Ural.Py.Re.Extra
